@@ -267,9 +267,47 @@ class _ScopedLets(dict):
             self[k_] = init
 
 
+def _origin_chain(run, f, rel, node, ident, depth=4):
+    """texts of the expressions `ident` (as seen at `node`) is bound from, following let / let-else / if-let bindings and
+    plain renamings up to `depth` steps"""
+    out = []
+    seen = set()
+    cur = [ident]
+    par = S.Parents(f.body)
+    for _ in range(depth):
+        nxt = []
+        for name in cur:
+            if name in seen:
+                continue
+            seen.add(name)
+            best = None
+            for b in S.walk(f.body):
+                if b["k"] == "Local" and b.get("init") is not None and name in S.pat_bindings(b["pat"]):
+                    blk = next((a for a in par.ancestors(b) if a["k"] == "Block"), f.body)
+                    if S.span_contains(blk["sp"], node["sp"]) and (b["sp"][0], b["sp"][1]) <= (node["sp"][0], node["sp"][1]):
+                        key = (b["sp"][0], b["sp"][1])
+                        if best is None or key > best[0]:
+                            best = (key, b["init"])
+                elif b["k"] == "Let" and name in S.pat_bindings(b["pat"]):
+                    iff = next((a for a in par.ancestors(b) if a["k"] == "If"), None)
+                    if iff is not None and S.span_contains(iff["then"]["sp"], node["sp"]):
+                        key = (b["sp"][0], b["sp"][1])
+                        if best is None or key > best[0]:
+                            best = (key, b["expr"])
+            if best is None:
+                continue
+            init = best[1]
+            out.append(S.norm_ws(run.facts.text(rel, init["sp"])))
+            nxt.extend(i for i in S.idents(init) if i not in seen)
+        cur = nxt
+        if not cur:
+            break
+    return out
+
+
 def r07_7(run, model):
     run.rule("R07.7", "an instance is requested under the name of the generic definition that was found: the first argument of "
-                      "ensure_instance in mono_expr comes from `callee.name` (methods of a generic impl are stored under the generic name; "
+                      "ensure_instance in mono_expr is the `.name` of the definition found in the function table (methods of a generic impl are stored under the generic name; "
                       "the call-site name is not a key of the function table)")
     f = model.fn("mono_expr", MONO)
     lets = {}
@@ -282,8 +320,12 @@ def r07_7(run, model):
             n += 1
             a = c["args"][0]
             ids = S.idents(a)
-            src = " ".join(S.norm_ws(run.facts.text(MONO, lets[i]["sp"])) for i in ids if i in lets) or S.norm_ws(run.facts.text(MONO, a["sp"]))
-            ok = re.search(r"\bcallee\.name\b", src) is not None or re.search(r"\bcallee\.name\b", S.norm_ws(run.facts.text(MONO, a["sp"]))) is not None
+            chain = [S.norm_ws(run.facts.text(MONO, a["sp"]))]
+            for i in ids:
+                chain += _origin_chain(run, f, MONO, c, i)
+            src = " <- ".join(chain)
+            # the name is read from the definition found in the function table: `<def>.name` with <def> obtained from orig_fns
+            ok = re.search(r"\b\w+\.name\b", src) is not None and "orig_fns" in src
             run.ob("R07.7", f"mono_expr|instance #{n} requested under the definition's name", ok, site(MONO, c["sp"]), f"ensure_instance({S.norm_ws(run.facts.text(MONO, a['sp']))}, ..) where it is `{src[:50]}`",
                    witness="impl[T] Maybe[T] { fn or_else(..) }: m.or_else(0) queues `inherent#Maybe#Maybe[int32]#or_else`, mono panics `unknown function`")
     run.floor("ensure_instance calls in mono_expr", n, 1)
@@ -308,7 +350,10 @@ def r07_9(run, model):
                 continue
             e = fl["expr"]
             t = S.norm_ws(run.facts.text(MONO, e["sp"]))
-            if e["k"] == "Path" and len(e["segs"]) == 1 and e["segs"][0] == "name":
+            base = e
+            while base["k"] == "MethodCall" and base["method"] in ("clone", "to_string", "to_owned") and not base["args"]:
+                base = base["recv"]
+            if base["k"] == "Path" and len(base["segs"]) == 1 and base["segs"][0] == "name":
                 continue  # the arm for a variable: pattern-bound name passed through
             n += 1
             src = t
@@ -488,6 +533,30 @@ def r07_6(run, model):
         raise AnalysisIncomplete("mono_expr: callee lookup not found")
 
 
+def r07_11(run, model):
+    run.rule("R07.11", "every instance reachable from main is generated: a reference to a generic function is specialised wherever it occurs - "
+                       "mono_expr queues an instance (ensure_instance) in its EVar arm too, not only for the function of an ECall")
+    f = model.fn("mono_expr", MONO)
+    ms = list(S.find(f.body, "Match"))
+    if not ms:
+        raise AnalysisIncomplete("mono_expr: match not found")
+    arms = {}
+    for arm in ms[0]["arms"]:
+        for a in S.pat_alts(arm["pat"]):
+            h = S.pat_head(a)
+            if h[0] == "variant":
+                arms[h[1][-1]] = arm
+    if "EVar" not in arms or "ECall" not in arms:
+        raise AnalysisIncomplete("mono_expr: EVar / ECall arms not found")
+    call_ok = any(c["k"] == "MethodCall" and c["method"] == "ensure_instance" for c in S.walk(arms["ECall"]["body"]))
+    var_ok = any(c["k"] == "MethodCall" and c["method"] == "ensure_instance" for c in S.walk(arms["EVar"]["body"]))
+    run.ob("R07.11", "mono_expr|ECall specialises its generic callee", call_ok, site(MONO, arms["ECall"]["sp"]), f"ensure_instance in the ECall arm: {call_ok}")
+    run.ob("R07.11", "mono_expr|EVar specialises a generic function used as a value", var_ok, site(MONO, arms["EVar"]["sp"]),
+           f"ensure_instance in the EVar arm: {var_ok}",
+           witness="fn id[T](x: T) -> T { x } ... apply(id, 5) / let g: (int32) -> int32 = id: Mono keeps the name `id`, no instance of id is "
+                   "generated and the Go output calls an undefined function")
+
+
 def run(run, model):
     run.try_rule(r07_1, model)
     run.try_rule(r07_2, model, None, "C07")
@@ -498,6 +567,7 @@ def run(run, model):
     run.try_rule(r07_4, model)
     run.try_rule(r07_5, model)
     run.try_rule(r07_6, model)
+    run.try_rule(r07_11, model)
     from rules import c03
     run.rule("R07.10", "no residue of type parameters: a type parameter that can never be inferred is rejected where the function is declared (shared with C03 R03.17)")
     run.try_rule(c03.r03_17, model)
